@@ -658,6 +658,46 @@ impl Ctx {
     Ok(())
   }
 
+  /// `ord wallet balance` next to the wallet's outputs as the node and the index see them
+  /// (values as [v / 10^8, v % 10^8]: TLC integers are 32-bit)
+  pub fn balance_row(&mut self) -> Result<()> {
+    self.w.sync()?;
+    self.w.core.state().locked.clear();
+    let out = self.w.cli(&["wallet", "balance"])?;
+    let pair = |v: u64| json!([v / 100_000_000, v % 100_000_000]);
+    let mut outs = Vec::new();
+    for (o, v) in self.wallet_utxos() {
+      let runes = self.balances(o)?;
+      outs.push(json!({"v": pair(v.to_sat()), "insc": self.insc_count(o)? > 0,
+        "runes": runes.iter().map(|(r, a)| json!([r, a])).collect::<Vec<_>>()}));
+    }
+    let j = &out.json;
+    let get = |k: &str| pair(j[k].as_u64().unwrap_or(0));
+    let mut reported: Vec<(usize, u128)> = Vec::new();
+    if let Some(m) = j["runes"].as_object() {
+      for (name, amount) in m {
+        let rune: Rune = name.replace('•', "").parse().map_err(|_| anyhow!("rune name {name}"))?;
+        let r = self.rune_rank(rune);
+        let div = self.runes.get(r.wrapping_sub(1)).map(|i| i.div).unwrap_or(0);
+        // the command prints decimals; back to atomic units
+        let text = amount.as_str().map(|s| s.to_string()).unwrap_or_else(|| amount.to_string());
+        let (int, frac) = text.split_once('.').unwrap_or((&text, ""));
+        let mut frac = frac.to_string();
+        while frac.len() < div as usize {
+          frac.push('0');
+        }
+        let atoms: u128 = format!("{int}{frac}").parse().unwrap_or(u128::MAX);
+        reported.push((r, atoms));
+      }
+    }
+    reported.sort();
+    self.rows.push(json!({"event": "Balance", "tag": self.tag, "ok": out.ok, "outs": outs,
+      "cardinal": get("cardinal"), "ordinal": get("ordinal"), "runic": get("runic"), "total": get("total"),
+      "runes": reported.iter().map(|(r, a)| json!([r, a])).collect::<Vec<_>>(),
+      "warned": out.stderr.contains("contains both inscriptions and runes")}));
+    Ok(())
+  }
+
   fn totals(&mut self) -> Result<(BTreeMap<usize, u128>, BTreeMap<usize, u128>)> {
     // (total per rune over runic, uninscribed wallet outputs; balance of the first such holder)
     let mut tot = BTreeMap::new();
@@ -817,9 +857,13 @@ pub fn runes_trace(seed: u64, worlds: usize, ops: usize, dry_splits: usize, out:
         .collect()
     };
     c.rows.push(json!({"event": "World", "runes": runes, "tag": c.tag}));
+    c.balance_row()?;
     c.systematic_dry_ops(dry_splits)?;
-    for _ in 0..ops {
+    for k in 0..ops {
       c.random_op()?;
+      if k % 3 == 2 {
+        c.balance_row()?;
+      }
     }
     c.w.handle.shutdown();
     all.append(&mut c.rows);
